@@ -139,8 +139,76 @@ func Load(o LoadOpts) (*World, error) {
 			w.Funcs[k] = fn
 		}
 	}
+	w.recoverRenamed()
 	w.SSAS = time.Since(t1).Seconds()
 	return w, nil
+}
+
+// funcAlias: functions that were recognised as renamed anchors keep answering to the name the rule tables know.
+var funcAlias = map[*ssa.Function]string{}
+var aliasNotes []string
+
+func sigFingerprint(fn *ssa.Function) string {
+	q := func(p *types.Package) string { return p.Path() }
+	var sb strings.Builder
+	if r := fn.Signature.Recv(); r != nil {
+		sb.WriteString(types.TypeString(r.Type(), q) + "|")
+	}
+	tup := func(t *types.Tuple) {
+		sb.WriteString("(")
+		for i := 0; i < t.Len(); i++ {
+			if i > 0 {
+				sb.WriteString(",")
+			}
+			sb.WriteString(types.TypeString(t.At(i).Type(), q)) // types only: parameter names may change with the rename
+		}
+		sb.WriteString(")")
+	}
+	tup(fn.Signature.Params())
+	tup(fn.Signature.Results())
+	if fn.Signature.Variadic() {
+		sb.WriteString("...")
+	}
+	return sb.String()
+}
+
+// recoverRenamed: an anchored function (frozenSigs) that no longer exists is matched to the unique function of the same
+// package / receiver with the identical signature that is not an anchor itself. Renaming a function is a
+// behaviour-preserving edit; without this every rule on it would turn unresolved and the check would alarm.
+func (w *World) recoverRenamed() {
+	scope := func(k string) string {
+		if i := strings.LastIndexByte(k, '.'); i >= 0 {
+			return k[:i]
+		}
+		return ""
+	}
+	for _, old := range sortedKeys(frozenSigs) {
+		if _, ok := w.Funcs[old]; ok {
+			continue
+		}
+		var cands []string
+		for k, fn := range w.Funcs {
+			if scope(k) != scope(old) || fn.Parent() != nil || len(fn.Blocks) == 0 {
+				continue
+			}
+			if _, isAnchor := frozenSigs[k]; isAnchor {
+				continue
+			}
+			if sigFingerprint(fn) == frozenSigs[old] {
+				cands = append(cands, k)
+			}
+		}
+		if len(cands) != 1 {
+			continue
+		}
+		fn := w.Funcs[cands[0]]
+		funcAlias[fn] = old
+		w.Funcs[old] = fn
+		for _, a := range fn.AnonFuncs {
+			w.Funcs[FuncKey(a)] = a
+		}
+		aliasNotes = append(aliasNotes, fmt.Sprintf("anchor %s not found; resolved to %s (same package/receiver, identical signature, not an anchor itself): treated as a rename", old, cands[0]))
+	}
 }
 
 // CG builds the call graph lazily (VTA over CHA).
@@ -213,6 +281,9 @@ func ObjKey(f *types.Func) string {
 func FuncKey(fn *ssa.Function) string {
 	if fn == nil {
 		return ""
+	}
+	if a, ok := funcAlias[fn]; ok {
+		return a
 	}
 	if fn.Parent() != nil {
 		// name is like "Outer$1" or "Outer$1$2"
